@@ -97,6 +97,7 @@ class _BaseMMC(MahalanobisMixin):
 
     A_old = A.copy()
 
+    cycle, delta = 0, np.inf  # (what is reported when max_iter == 0)
     for cycle in range(self.max_iter):
 
       # projection of constraints C1 and C2
